@@ -123,6 +123,12 @@ pub fn judge(case: &Case) -> Verdict {
             // the first pass's own output must not be reported as erroneous
             return Err(json!({"second_pass_diagnostics": t2.diags}));
         }
+        // swc's own print -> parse -> print must be stable on this text, otherwise a difference
+        // says nothing about the transform (seen: `(() => 1) as any && x`)
+        match t2.print_final_nocomments(&t2.input) {
+            Ok(plain) if plain == bare => {}
+            _ => return Ok(()),
+        }
         match t2.print_final_nocomments(raw2) {
             Ok(c2) => {
                 if c2 != bare {
